@@ -2,6 +2,7 @@ import Splipy.Lemmas.C12Compat
 import Splipy.Lemmas.C12Merge
 import Splipy.Lemmas.C12Union
 import Splipy.Lemmas.C12Stages
+import Splipy.Lemmas.C12Curve
 import Splipy.Lemmas.C12Examples
 import Mathlib.Data.Rat.Floor
 import Mathlib.Tactic.NormNum
@@ -185,7 +186,9 @@ that is actually made:
   Schoenberg–Whitney `H_sw`, pardim 1);
 * `H_insert₁/₂` — `insert_knot(list)` keeps the evaluated map (property C04: `C04_object` proves it
   for every fibre of a non-periodic direction; the identification of the fibre splines with the
-  tensor-product sum `C06.TP.eval` is not formalised, periodic insertion is `C04_periodic_partial`).
+  tensor-product sum `C06.TP.eval` is formalised for curves only — `C12.insertKnots_sameMap_curve`,
+  used in `C12_open_curves_partial`, where this hypothesis is discharged —, periodic insertion is
+  `C04_periodic_partial`).
 So the theorem is complete exactly when periodicities and orders already agree and nothing has to be
 inserted, and otherwise partial to the extent C08 / C05 / C04 are.  The correspondence run decides
 all six hypotheses in exact rational arithmetic for every generated pair (`same1`, `same2`). -/
@@ -254,6 +257,38 @@ theorem C12_geometry_partial {m : ℕ} (tol : K) (c1 c2 : Bool) (s a b c r : Obj
       rw [max_eq_right hle]; omega
     rw [this] at hr2
     exact raiseOrderDispatch_zero hr2
+
+/-- **Two open curves of the same order — the whole property, no hypothesis on the called methods.**
+`s` is the pair after `make_splines_compatible`, `a` the pair after the `reparam` stage, whose two
+(clamped, non-periodic) bases of order `p ≥ 2` are written over the common end knots `x0 < xl`
+(`= 0, 1`) and the common separated list `L` of interior entries (value, multiplicity in curve 1,
+multiplicity in curve 2; `0` = absent).  Then `make_splines_identical` (direction 0) succeeds; both
+curves end with the SAME basis — order `p`, non-periodic, knot vector the union with multiplicities
+`max(m₁,m₂)` —; and each curve evaluates, at `(u - start)/(end - start)`, to exactly the map it
+represented before (every homogeneous component, every side).
+Here `lower_periodic` and `raise_order` have nothing to do (`raise_order(0)` returns the receiver), the
+`reparam` step is property C06 and the insertion step property C04 (`C04.insertKnots_fibres`) lifted
+to the defining sum of a curve (`C12.toTP_eval_curve`).
+
+`_partial`: the sub-family "curves, both non-periodic, equal orders, knots pairwise equal or more
+than `tol` apart"; differing orders / periodicities and surfaces / volumes are `C12_geometry_partial`. -/
+theorem C12_open_curves_partial (tol : K) (htol : 0 < tol) (c1 c2 : Bool) (p : ℕ) (hp : 2 ≤ p) (x0 xl : K)
+    (L : List (K × ℕ × ℕ)) (hsep : Separated tol (clampedU x0 xl (L.map (·.1))))
+    (s a : Obj K × Obj K) (hw1 : C06.WF s.1 1) (hw2 : C06.WF s.2 1) (ha : stageReparam s 0 = .ok a)
+    (hb1 : a.1.basis 0 = openBasis p (clampedU x0 xl (L.map (·.1))) (clampedM p (L.map (·.2.1))))
+    (hb2 : a.2.basis 0 = openBasis p (clampedU x0 xl (L.map (·.1))) (clampedM p (L.map (·.2.2)))) :
+    ∃ r, identicalDir tol c1 c2 s 0 = .ok r
+      ∧ r.1.basis 0 = openBasis p (clampedU x0 xl (L.map (·.1))) (clampedM p (L.map (fun e => max e.2.1 e.2.2)))
+      ∧ r.2.basis 0 = r.1.basis 0
+      ∧ Rescaled 1 0 (s.1.basis 0).start (s.1.basis 0).stop s.1 r.1
+      ∧ Rescaled 1 0 (s.2.basis 0).start (s.2.basis 0).stop s.2 r.2 := by
+  obtain ⟨_, _, ha1, ha2⟩ := stageReparam_ok ha
+  have hre1 := reparam_rescaled hw1 0 ha1
+  have hre2 := reparam_rescaled hw2 0 ha2
+  obtain ⟨r, hSP, hSO, hSM, hr1, hr2, hs1, hs2⟩ :=
+    open_curves_same_order tol htol c1 c2 p hp x0 xl L hsep a hre1.2.1 hre2.2.1 hb1 hb2
+  exact ⟨r, identicalDir_of_stages ha hSP hSO hSM, hr1, hr2.trans hr1.symm,
+    hre1.1.trans_same hs1, hre2.1.trans_same hs2⟩
 
 /-! ## Directions -/
 
@@ -325,7 +360,7 @@ theorem C12_directions (tol : K) (c1 c2 : Bool) (o1 o2 : Obj K) :
 
 section examples
 
-attribute [local instance] c05BasisDecEq tensorDecEq objDecEq
+attribute [local instance] basisDecEq tensorDecEq objDecEq
 
 /-- `C12_compatible` on a planar non-rational curve and a rational space curve: both end rational
     in dimension 3, and the promoted curve has weight 1 at control point 0. -/
@@ -396,6 +431,21 @@ example :
     ((makeIdentical exTol true true exQ exL none).toOption.map (fun r =>
         ([r.1.dimension, r.2.dimension], [r.1.rational, r.2.rational], [r.1.cps.shape, r.2.cps.shape])))
       = some ([3, 3], [true, true], [[7, 4], [7, 4]]) := by
+  decide +kernel
+
+/-- `C12_open_curves_partial` applies to `(exQ, exL)`: the call succeeds, both curves get the union
+    knot vector `0,0,0,1/3,1/2,2/3,2/3,1,1,1`, and both are exact rescalings of their inputs. -/
+example : ∃ r, identicalDir exTol true true (exQ, exL) 0 = .ok r
+    ∧ (r.1.basis 0).knots = #[0, 0, 0, 1/3, 1/2, 2/3, 2/3, 1, 1, 1] ∧ r.2.basis 0 = r.1.basis 0
+    ∧ Rescaled 1 0 (exQ.basis 0).start (exQ.basis 0).stop exQ r.1
+    ∧ Rescaled 1 0 (exL.basis 0).start (exL.basis 0).stop exL r.2 := by
+  obtain ⟨ha, hb1, hb2⟩ := exQL_reparam
+  have hsep : Separated exTol (clampedU (0 : ℚ) 1 ([((1 : ℚ)/3, 1, 0), (1/2, 0, 1), (2/3, 2, 0)].map (·.1))) := by
+    simp [Separated, clampedU, exTol]; norm_num
+  obtain ⟨r, h1, h2, h3, h4, h5⟩ := C12_open_curves_partial exTol (by norm_num [exTol]) true true 3 (by norm_num)
+    0 1 [((1 : ℚ)/3, 1, 0), (1/2, 0, 1), (2/3, 2, 0)] hsep (exQ, exL) (exQa, exLa) exQ_wf exL_wf ha hb1 hb2
+  refine ⟨r, h1, ?_, h3, h4, h5⟩
+  rw [h2]
   decide +kernel
 
 /-- `C12_directions`: for these curves the explicit directions `0`, `'u'`, `'U'` are the same call,
